@@ -98,6 +98,33 @@ def config_history(ctx):
             else:
                 ctx.violation(f"history-dependent:configuration-object-reused:{how}", f"conversion {i + 1} with one configuration object whose table was changed ({how}) to {m}: output differs from a fresh process with that table", {"source": src, "options": kw, "tables": maps[: i + 1]})
                 break
+    # (a2) one configuration object, unchanged by the caller, used with different default sizes (and different programs): the
+    # conversion must not write into it
+    src2 = '10 DIM N$ , T$ ( 5 ) : N$ = "X" : T$ ( 1 ) = N$\n'
+    for mapping in ({}, {"B$": 40}, {"T$()": 50}):
+        cfg = CompilerConfigs(string_configs=StringConfigs(strname_to_size=dict(mapping)))
+        before = dict(cfg.string_configs.strname_to_size)
+        for i, (text, size) in enumerate(((src2, 64), (src2, 80), (src, 80), (src2, 33))):
+            kw2 = dict(kw, default_str_storage=size)
+            code = ("import sys, json; sys.path.insert(0, %r); from coco.b09 import compiler; from coco.b09.configs import CompilerConfigs, StringConfigs; "
+                    "print(json.dumps(compiler.convert(%r, compiler_configs=CompilerConfigs(string_configs=StringConfigs(strname_to_size=%r)), **%r)))" % (REPO, text, mapping, kw2))
+            r = subprocess.run([sys.executable, "-c", code], env=dict(os.environ, PYTHONHASHSEED="0"), capture_output=True, text=True, timeout=120)
+            if r.returncode != 0:
+                raise HarnessError("fresh-process conversion with a configuration failed: " + r.stderr[-200:])
+            got = compiler.convert(text, compiler_configs=cfg, **kw2)
+            ctx.stats["obligations"] += 1
+            ctx.stats["programs"] += 1
+            ctx.stats["traces_validated_against_impl"] += 1
+            if got == json.loads(r.stdout):
+                ctx.stats["identity"] += 1
+            else:
+                ctx.violation("history-dependent:configuration-object-reused:other-default-size", f"conversion {i + 1} with one configuration object {mapping} and default_str_storage={size}: output differs from a fresh process", {"source": text, "options": kw2})
+                break
+        ctx.stats["obligations"] += 1
+        if dict(cfg.string_configs.strname_to_size) == before:
+            ctx.stats["identity"] += 1
+        else:
+            ctx.violation("history-dependent:configuration-object-written", f"convert() changed the caller's configuration table from {before} to {dict(cfg.string_configs.strname_to_size)}", {"source": src2, "options": kw})
     # (b) configuration files: same name in two directories (relative path), and one file edited between conversions
     tmp = tempfile.mkdtemp(prefix="c12cfg")
     cwd = os.getcwd()
